@@ -31,4 +31,44 @@ def run(prog, tier, res):
     else:
         res.hit(R2)
     res.sample({"DriftTables::at": tab})
-    res.undecided = ["monotonicity, 0.5 mm continuity, radius and Lorentz-angle bounds (depend on table values)", "ulp-level behaviour at knots"]
+    # ------------------------------------------------------------------ R3: the embedded table itself
+    from .. import invariants
+    R3 = res.rule("C18.R3", "embedded drift tables (the only source of DriftTables values): z bounds and knot times strictly ascending, radius non-increasing, "
+                  "adjacent radius step < 0.5 mm at the 8 ns knot spacing, Lorentz correction >= 0", 90)
+    STATIC = "alpha_g_physics::drift::DRIFT_TABLES"
+    vals = invariants.embedded_values(prog, "alpha_g_physics::drift::DriftTables")
+    if not vals or len(vals) != 1 or not isinstance(vals[0], list):
+        res.violate(R3, STATIC, "source", "DriftTables values are not (only) deserialised from one embedded byte constant; the table clauses cannot be decided", "", kind="anchor-missing")
+    else:
+        tables = vals[0]
+        prev_ub = None
+        for entry in tables:
+            ok_shape = isinstance(entry, list) and len(entry) == 2 and isinstance(entry[0], list) and all(isinstance(k, list) and len(k) == 3 for k in entry[0])
+            if not ok_shape:
+                res.violate(R3, STATIC, "shape", "embedded table entry is not ([(time, radius, correction)...], z upper bound)", "")
+                continue
+            knots, ub = entry
+            tag = "zmax=%r" % ub
+            bad = []
+            if prev_ub is not None and not ub > prev_ub:
+                bad.append(("z-order", "z upper bound %r does not exceed the previous bound %r" % (ub, prev_ub)))
+            prev_ub = ub
+            if len(knots) < 2:
+                bad.append(("knots", "fewer than two knots"))
+            for i in range(1, len(knots)):
+                (t0, r0, c0), (t1, r1, c1) = knots[i - 1], knots[i]
+                if not t1 > t0:
+                    bad.append(("time-order:t=%r" % t1, "knot times not strictly ascending at t=%r" % t1))
+                if r1 > r0:
+                    bad.append(("radius-up:t=%r" % t1, "radius increases with drift time at t=%r (%r -> %r)" % (t1, r0, r1)))
+                if abs((t1 - t0) - 8e-9) < 1e-15 and not (r0 - r1) < 0.5e-3:
+                    bad.append(("step:t=%r" % t1, "radius changes by %.3f mm between the lookups at t=%r s and t=%r s (8 ns apart) in the slice |z| <= %r m; "
+                                "the property requires less than 0.5 mm" % ((r0 - r1) * 1e3, t0, t1, ub)))
+            if any(c < 0 for _, _, c in knots) or any(r < 0 for _, r, _ in knots):
+                bad.append(("sign", "negative radius or Lorentz correction tabulated"))
+            res.oblige(not bad, "table-data")
+            res.hit(R3)     # one instance per slice examined; violations are reported per failing knot
+            for k, what in bad:
+                res.violate(R3, STATIC, "%s:%s" % (tag, k), what, "physics/src/drift.rs")
+        res.extra["embedded_table"] = {"slices": len(tables), "knots": sum(len(e[0]) for e in tables if isinstance(e, list) and e and isinstance(e[0], list))}
+    res.undecided = ["ulp-level behaviour of the interpolation arithmetic at and between knots", "half-detector-length constant of the largest z bound"]
